@@ -21,7 +21,7 @@ from .seams import SimExit, StepBudgetExceeded, StepClock, Tripwires, WallTimeou
 from .simfs import REPO, HarnessError, SimCrash, SimFS
 
 REPO_PREFIXES = (REPO + "/compiler/", REPO + "/lib/py/")
-SYSTEM_OPS = ("parse", "parse_string", "lint", "render", "cli")
+SYSTEM_OPS = ("parse", "parse_string", "lint", "render", "cli", "introspect")
 MAX_BUDGET = 120_000_000
 WALL_LIMIT_S = 60.0
 
@@ -309,6 +309,19 @@ class CompilerProcess:
             rec, n = self.system_op(i, op, lambda: linter.lint(proto), self.budget_render(proto, False))
             rec["warnings"] = n
             return rec
+        if kind == "introspect":
+            # what an embedding such as the language server does between compilations:
+            # read-only queries on the tree (they populate the process-global memo in
+            # other parametrisations than lint and the renderers use)
+            proto = self.sessions.get(op["sid"])
+            if proto is None:
+                return {"i": i, "op": kind, "outcome": "skipped"}
+            rec, n = self.system_op(i, op, lambda: self.introspect(proto, op.get("variant", 0)), self.budget_render(proto, False))
+            rec["queries"] = n
+            if rec["outcome"] != "ok":
+                rec["outcome"] = "ok"  # queries are not judged; a failing query is only recorded
+                rec["query_failed"] = True
+            return rec
         if kind == "render":
             proto = self.sessions.get(op["sid"])
             if proto is None:
@@ -340,6 +353,56 @@ class CompilerProcess:
                 rec["outputs"] = self.outputs_in(op["outdir_abs"])
             return rec
         raise HarnessError("unknown op %r" % (kind,))
+
+    def introspect(self, proto, variant: int) -> int:
+        ast = self.mod("bitproto._ast")
+        n = 0
+        seen = set()
+
+        def call(obj, name, *a, **k):
+            nonlocal n
+            f = getattr(obj, name, None)
+            if callable(f):
+                n += 1
+                return f(*a, **k)
+            return None
+
+        def walk(scope, depth=0):
+            if id(scope) in seen or depth > 32:
+                return
+            seen.add(id(scope))
+            for rec_ in ((False, True) if variant % 2 == 0 else (True, False)):
+                call(scope, "messages", recursive=rec_)
+                call(scope, "enums", recursive=rec_)
+                call(scope, "constants", recursive=rec_)
+                call(scope, "aliases", recursive=rec_)
+                if variant % 3 == 0:
+                    call(scope, "filter", ast.Definition, recursive=rec_, bound=proto)
+                    call(scope, "filter", ast.Definition, recursive=rec_)
+            if hasattr(scope, "options_as_dict"):
+                call(scope, "options_as_dict")
+            for name, m in list(getattr(scope, "members", {}).items()):
+                call(scope, "get_member", name)
+                call(scope, "get_name_by_member", m)
+                if isinstance(m, ast.Message):
+                    call(m, "nbits")
+                    call(m, "nbytes")
+                    call(m, "sorted_fields")
+                    call(m, "number_to_field_sorted")
+                    call(m, "nfields")
+                if isinstance(m, ast.Enum):
+                    call(m, "name_to_values")
+                    call(m, "value_to_names")
+                    call(m, "fields")
+                if isinstance(m, ast.Alias):
+                    call(m, "nbits")
+                if hasattr(m, "members"):
+                    walk(m, depth + 1)
+
+        walk(proto)
+        for ref in list(getattr(proto, "references", []))[:50]:
+            _ = ref.referenced_definition
+        return n
 
     def jitter(self, i: int, op: dict) -> dict:
         k = op.get("kind")
